@@ -38,6 +38,25 @@ fn bases() -> &'static Vec<Base> {
             let enc = S::encode(&m, &S::EncOpts::default());
             v.push(Base { name: format!("generated#{}", i), bytes: enc.out, offsets: enc.offsets });
         }
+        // one stream with a large (but legal) record: a boundary of 4100 points, whose XY record
+        // alone is 32 KB, so that doubling it goes beyond what one record can hold
+        {
+            let mut lib = gds21::GdsLibrary::new("big");
+            let mut st = gds21::GdsStruct::new("s");
+            let mut xy: Vec<gds21::GdsPoint> = (0..4099).map(|i| gds21::GdsPoint::new(i, (i * 7) % 13)).collect();
+            xy.push(xy[0].clone());
+            st.elems.push(gds21::GdsElement::GdsBoundary(gds21::GdsBoundary { layer: 1, datatype: 0, xy, ..Default::default() }));
+            st.elems.push(gds21::GdsElement::GdsTextElem(gds21::GdsTextElem { string: "t".into(), layer: 1, texttype: 0, xy: gds21::GdsPoint::new(1, 1), ..Default::default() }));
+            lib.structs.push(st);
+            let mut bytes = vec![];
+            if lib.write(&mut bytes).is_ok() {
+                if let Ok((recs, end)) = S::split_records(&bytes) {
+                    let mut offsets: Vec<usize> = recs.iter().map(|r| r.off).collect();
+                    offsets.push(end);
+                    v.push(Base { name: "generated-large-record".to_string(), bytes, offsets });
+                }
+            }
+        }
         for f in REPO_FILES {
             if let Ok(bytes) = std::fs::read(f) {
                 if let Ok((recs, end)) = S::split_records(&bytes) {
@@ -416,7 +435,7 @@ fn scaling_case(src: &mut Src, ctx: &mut Ctx) -> Result<(), String> {
 
 fn run(run: &mut Run) {
     engine::journal::set_hang_ms(30_000);
-    run.rule("Base streams: 30 generated valid streams (all element kinds, <= ~2 KB) + 3 repository files. (i) every truncation point of every base; (ii) every single-record fault (6 length faults, empty payload, 64 record types, 8 data types, delete/duplicate/swap, 8 splices) at every record of the generated bases and every n-th record of the repository files; (ii-b) a well-formed record of each of the 64 record types x 11 payload shapes inserted at every record boundary of the generated bases; (iii) proptest-driven byte mutations and noise; extreme/unnormalised reals in UNITS; allocation scaling. Non-trivial = faulted stream differs from its base; distinct by hash of the bytes.");
+    run.rule("Base streams: 30 generated valid streams (all element kinds, <= ~2 KB), one stream with a 32 KB XY record, 3 repository files. (i) every truncation point of every base; (ii) every single-record fault (6 length faults, empty payload, 64 record types, 8 data types, delete/duplicate/swap, 8 splices) at every record of the generated bases and every n-th record of the repository files; (ii-b) a well-formed record of each of the 64 record types x 11 payload shapes inserted at every record boundary of the generated bases; (iii) proptest-driven byte mutations and noise; extreme/unnormalised reals in UNITS; allocation scaling. Non-trivial = faulted stream differs from its base; distinct by hash of the bytes.");
     run.assume("termination is observed as: the call returns before the supervisor's hang watchdog / 60 s CPU limit; 'time proportional to input' is approximated by allocation volume at most doubling when the input doubles");
     run.assume("which error is returned is not asserted");
     run.min_nontrivial = 1000;
